@@ -128,6 +128,22 @@ func (f *FieldR) goType() reflect.Type {
 		return reflect.MapOf(reflect.TypeOf(""), f.Sub.cached())
 	case "mapsm":
 		return reflect.TypeOf(map[string]map[string]int64(nil))
+	case "nuint16":
+		return reflect.TypeOf(Port(0))
+	case "nint32":
+		return reflect.TypeOf(Count(0))
+	case "nbool":
+		return reflect.TypeOf(Flag(false))
+	case "nfloat64":
+		return reflect.TypeOf(Ratio(0))
+	case "nstring":
+		return reflect.TypeOf(Label(""))
+	case "nstrs": // slice of a named string type
+		return reflect.TypeOf([]Label(nil))
+	case "nports": // slice of a named integer type
+		return reflect.TypeOf([]Port(nil))
+	case "nmapli": // map with a named string type as key and a named integer as value
+		return reflect.TypeOf(map[Label]Count(nil))
 	case "emb": // embedded named struct (field name Base)
 		return reflect.TypeOf(Base{})
 	case "pemb": // embedded pointer to a named struct
@@ -168,9 +184,41 @@ func (f *FieldR) fill(rv reflect.Value) {
 		return
 	}
 	switch f.Kind {
-	case "bool":
+	case "bool", "nbool":
 		rv.SetBool(v.B)
-	case "int", "int8", "int16", "int32", "int64":
+	case "nuint16":
+		rv.SetUint(v.U & 0xffff)
+	case "nfloat64":
+		rv.SetFloat(v.F)
+	case "nstring":
+		rv.SetString(v.S)
+	case "nstrs":
+		if !v.Nil {
+			x := make([]Label, len(v.Strs))
+			for i, e := range v.Strs {
+				x[i] = Label(e)
+			}
+			rv.Set(reflect.ValueOf(x))
+		}
+	case "nports":
+		if !v.Nil {
+			x := make([]Port, len(v.Ints))
+			for i, e := range v.Ints {
+				x[i] = Port(e)
+			}
+			rv.Set(reflect.ValueOf(x))
+		}
+	case "nmapli":
+		if !v.Nil {
+			m := map[Label]Count{}
+			for i, k := range v.Keys {
+				if i < len(v.Ints) {
+					m[Label(k)] = Count(v.Ints[i])
+				}
+			}
+			rv.Set(reflect.ValueOf(m))
+		}
+	case "int", "int8", "int16", "int32", "int64", "nint32":
 		rv.SetInt(clampInt(v.I, rv.Type().Bits()))
 	case "uint", "uint8", "uint16", "uint32", "uint64":
 		u := v.U
@@ -350,8 +398,9 @@ func clampInt(i int64, bits int) int64 {
 // ---- generators ----
 
 var fieldNames = []string{"A", "B", "C", "D", "E", "Name", "Value", "ID", "Xyz", "URL", "aBc", "X1", "LongFieldName", "Zed"}
-var scalarKinds = []string{"bool", "int", "int8", "int16", "int32", "int64", "uint", "uint8", "uint16", "uint32", "uint64", "float32", "float64", "string", "string", "int64"}
-var otherKinds = []string{"bytes", "ints", "strs", "mapsi", "pint", "pstr", "ppint", "any", "any", "arr3", "mapsm"}
+var scalarKinds = []string{"bool", "int", "int8", "int16", "int32", "int64", "uint", "uint8", "uint16", "uint32", "uint64", "float32", "float64", "string", "string", "int64",
+	"nuint16", "nint32", "nbool", "nfloat64", "nstring"} // n...: named types with that underlying kind
+var otherKinds = []string{"bytes", "ints", "strs", "mapsi", "pint", "pstr", "ppint", "any", "any", "arr3", "mapsm", "nstrs", "nports", "nmapli"}
 var structKinds = []string{"struct", "pstruct", "structs", "pstructs", "mapst"}
 var tagForms = []string{"", "", "", `json:"%s"`, `json:"%s,omitempty"`, `json:",omitempty"`, `json:"-"`, `json:"%s,string"`, `json:"-,"`}
 var tagNames = []string{"a", "b", "name", "x_y", "Upper", "id", "with space", "é"}
@@ -424,9 +473,21 @@ func drawValue(t *rapid.T, f *FieldR, depth int) *ValueR {
 	v := &ValueR{}
 	zero := rapid.IntRange(0, 4).Draw(t, "zero") == 0
 	switch f.Kind {
-	case "bool":
+	case "bool", "nbool":
 		v.B = !zero
-	case "int", "int8", "int16", "int32", "int64":
+	case "nuint16":
+		if !zero {
+			v.U = rapid.SampledFrom([]uint64{1, 80, 443, 65535}).Draw(t, "u")
+		}
+	case "nfloat64":
+		if !zero {
+			v.F = rapid.SampledFrom([]float64{1.5, -2.25, 0.1, 3}).Draw(t, "f")
+		}
+	case "nstring":
+		if !zero {
+			v.S = rapid.SampledFrom(valueStrs).Draw(t, "s")
+		}
+	case "int", "int8", "int16", "int32", "int64", "nint32":
 		if !zero {
 			v.I = rapid.SampledFrom(valueInts).Draw(t, "i")
 		}
@@ -450,15 +511,15 @@ func drawValue(t *rapid.T, f *FieldR, depth int) *ValueR {
 		if !zero {
 			v.S = rapid.SampledFrom([]string{"abc", "\x00\x01\xff", "hello world", "{}"}).Draw(t, "bs")
 		}
-	case "ints", "arr3":
-		v.Nil = f.Kind == "ints" && rapid.IntRange(0, 3).Draw(t, "nil") == 0
+	case "ints", "arr3", "nports":
+		v.Nil = f.Kind != "arr3" && rapid.IntRange(0, 3).Draw(t, "nil") == 0
 		if !zero {
 			n := rapid.IntRange(1, 3).Draw(t, "n")
 			for i := 0; i < n; i++ {
 				v.Ints = append(v.Ints, rapid.SampledFrom(valueInts).Draw(t, "ei"))
 			}
 		}
-	case "strs":
+	case "strs", "nstrs":
 		v.Nil = rapid.IntRange(0, 3).Draw(t, "nil") == 0
 		if !zero {
 			n := rapid.IntRange(1, 3).Draw(t, "n")
@@ -466,7 +527,7 @@ func drawValue(t *rapid.T, f *FieldR, depth int) *ValueR {
 				v.Strs = append(v.Strs, rapid.SampledFrom(valueStrs).Draw(t, "es"))
 			}
 		}
-	case "mapsi":
+	case "mapsi", "nmapli":
 		v.Nil = rapid.IntRange(0, 3).Draw(t, "nil") == 0
 		if !zero {
 			n := rapid.IntRange(1, 3).Draw(t, "n")
